@@ -6,8 +6,7 @@ import Glom.Model.C17Env
   Iter case:
     {"kind":"iter", "sub":name, "sentinel":null|{"v":V}, "p":[op…], "e1":[op…], "e2":[op…],
      "src":{"fin":[V…],"tail":null|cls}, "k":n, "mode":"take"|"all"|{"first":key},
-     "impl":{"main":…, "repr_same":b, "before":T, "after":T, "reused":T, "fresh":T, "repr_rt":null|T}}
-    repr_rt: take k of eval(repr(d2)) when every argument of the chain is a literal
+     "impl":{"main":…, "repr_same":b, "before":T, "after":T, "reused":T, "fresh":T}}
     the prefix spec p = Iter(sub, sentinel=…).P…; d1 = p.E1…; d2 = p.E2… (after d1);
     T = {"items":[V…], "fin":"gotK"|"exhausted"|{"raised":cls}, "pulls":n}
     main = T (take / all) | {"first":{"found":V}|"default"|{"raised":cls}, "pulls":n}
@@ -284,14 +283,9 @@ def runIter (j : Json) : Except String Json := do
     checkSource src iReused.pulls r aReused && checkSource src iFresh.pulls r aFresh
   let srcAgree := src.after mBefore.pulls r == aBefore && src.after mAfter.pulls r == aAfter &&
     src.after mReused.pulls r == aReused && src.after mReused.pulls r == aFresh
-  let iEvaled ← (match impl.getObjVal? "repr_rt" with
-    | .ok .null => pure none
-    | .ok ej => do return some (← takeOfJson ej)
-    | .error _ => pure none)
-  let reuseHolds := checkReuse reprSame iBefore iAfter iReused iFresh iEvaled &&
+  let reuseHolds := checkReuse reprSame iBefore iAfter iReused iFresh &&
     checkTake prefixKinds src k iBefore && checkTake userKinds src k iReused
-  let reuseAgree := mBefore == iBefore && mAfter == iAfter && mReused == iReused && mReused == iFresh &&
-    (match iEvaled with | some t => mReused == t | none => true)
+  let reuseAgree := mBefore == iBefore && mAfter == iAfter && mReused == iReused && mReused == iFresh
   let (mainAgree, mainHolds, mainModel, br) ← (match modeJ with
     | .str "take" => pure (true, true, Json.null, s!"take-{finName mReused.fin}")
     | .str "all" => do
